@@ -227,6 +227,15 @@ func cmdCheck(args []string) int {
 			undecided = append(undecided, f.res.Key+": "+line)
 			continue
 		}
+		// loops without an invariant: how many the pinned tree had (pseudo entry of the baseline)
+		newBase[f.res.Key] = append(newBase[f.res.Key], fmt.Sprintf("@bareloops=%d", f.res.BareLoops))
+		baseBare := -1
+		for _, b := range base.Props[*prop][f.res.Key] {
+			if strings.HasPrefix(b, "@bareloops=") {
+				baseBare, _ = strconv.Atoi(strings.TrimPrefix(b, "@bareloops="))
+			}
+		}
+		moreBareLoops := baseBare >= 0 && f.res.BareLoops > baseBare
 		// index obligation -> vc for replay
 		vcOf := map[*Obligation]*VC{}
 		for _, vc := range f.vcs {
@@ -312,6 +321,13 @@ func cmdCheck(args []string) int {
 				reproducedName[normObl(o.Name)] = true
 			}
 			switch {
+			case !rr.Reproduced && moreBareLoops && !(strings.HasPrefix(o.Kind, "safety") && o.Result == "sat"):
+				// the function now runs through a loop that has no invariant and that the pinned tree
+				// did not have (a loop moved into a helper, a new loop): whatever the loop computes is
+				// unknown to the proof, so a functional obligation that stops discharging says nothing
+				// about the code
+				undecided = append(undecided, f.res.Key+"#"+full+": "+o.Result+" (a loop without invariant was introduced)")
+				fmt.Printf("UNDECIDED property=%s obligation=%s#%s result=%s reason=%q\n", *prop, f.res.Key, full, o.Result, "the function now contains a loop without invariant that the pinned tree did not have")
 			case rr.Reproduced:
 				violations++
 				if !reportedV[normObl(o.Name)] {
